@@ -835,6 +835,11 @@ mod verif_deflate_core {
         lz.total_bytes += 1;
     }
     fn model_flush_block_noop(d: &mut CompressorOxide, callback: &mut CallbackOxide, flush: TDEFLFlush) -> Result<i32> { Ok(0) }
+    static NS_LAST_LIT: AU = AU::new(usize::MAX);
+    fn model_record_literal_logged(h: &mut HuffmanOxide, lz: &mut LZOxide, lit: u8) {
+        NS_LAST_LIT.store(lit as usize, RLX);
+        model_record_literal(h, lz, lit)
+    }
 
     #[kani::proof]
     #[kani::unwind(8)]
@@ -1294,9 +1299,9 @@ mod verif_deflate_core {
         let pend = (d.params.saved_match_len != 0) as usize;
         assert!(moved >= 1 && moved <= 3 && d.dict.lookahead_size == 3 - moved, "OBL:normalearly.one_step_then_return [C02]");
         assert!(d.params.src_pos == 3, "OBL:normalearly.src_pos_written_back [C02]");
-        assert!(moved == NS_RECORDED.load(RLX) + pend, "OBL:normalearly.every_skipped_byte_is_a_token_or_the_pending_lazy_match [C01 C02]");
+        assert!(moved == NS_RECORDED.load(RLX) + pend, "OBL:normalearly.every_skipped_byte_is_a_token_or_the_pending_lazy_match [C01 C02 C10]");
         if pend == 1 {
-            assert!(d.params.saved_lit == inb[0], "OBL:normalearly.saved_literal_is_the_skipped_byte [C02 C01]");
+            assert!(d.params.saved_lit == inb[0], "OBL:normalearly.saved_literal_is_the_skipped_byte [C02 C01 C10]");
             assert!(NS_FM_POS[0].load(RLX) == pos0 && d.params.saved_match_dist == NS_FM_DIST[0].load(RLX) && d.params.saved_match_len == NS_FM_LEN[0].load(RLX),
                 "OBL:normalearly.saved_match_is_the_one_found_at_the_skipped_position [C02 C01]");
         }
@@ -1590,6 +1595,92 @@ mod verif_deflate_core {
         }
         kani::cover!(st == TDEFLStatus::Done, "COV:sink.done");
         kani::cover!(fb != 0 && st == TDEFLStatus::Okay, "COV:sink.flush_block_okay");
+    }
+
+    /// the real compress_fast where the only candidate for a match lies 32767 bytes back: that window slot has just been
+    /// overwritten by the lookahead itself (the window holds history + lookahead in 32 KiB), so it is NOT history any
+    /// more -- dict.size must already be clamped to 32 KiB minus the lookahead when candidates are examined.
+    #[kani::proof]
+    #[kani::unwind(34)]
+    #[kani::stub(LZOxide::write_code, model_write_code)]
+    #[kani::stub(flush_block, model_flush_block_pending)]
+    #[kani::stub(<[u8]>::copy_from_slice, model_copy_from_slice)]
+    fn k_fast_lookahead_overlap() {
+        let mut d = any_compressor!();
+        concrete_window!(d.dict);
+        kani::assume(d.params.flags & TDEFL_FORCE_ALL_RAW_BLOCKS == 0);
+        let pos0: usize = 40000;
+        let p = pos0 & LZ_DICT_SIZE_MASK;
+        let cand: usize = pos0 - 32767;              // stream position whose window slot is p + 1
+        d.dict.b.dict[p + 4] = b'x';
+        let pat = [b'A', b'A', b'A', b'A'];
+        let tri: u32 = 0x41_4141;
+        let hash = (tri ^ (tri >> (24 - (LZ_HASH_BITS - 8)))) & LEVEL1_HASH_SIZE_MASK;
+        d.dict.b.hash[hash as usize] = cand as u16;
+        d.dict.lookahead_pos = pos0;
+        d.dict.lookahead_size = 0;
+        let size0: usize = kani::any();
+        kani::assume(size0 <= LZ_DICT_SIZE);
+        d.dict.size = size0;
+        d.params.flush = TDEFLFlush::Sync;
+        d.params.src_pos = 0;
+        d.lz.code_position = LZ_CODE_BUF_SIZE - 8;
+        let mut outb = [0u8; 8];
+        FS_N.store(0, RLX);
+        {
+            let mut cb = CallbackOxide::new_callback_buf(&pat[..], &mut outb[..]);
+            let _ = compress_fast(&mut d, &mut cb);
+        }
+        let matched = FS_N.load(RLX) == 3;
+        assert!(!matched, "OBL:fastcap.no_match_into_window_slots_already_overwritten_by_the_lookahead [C01 C10]");
+        assert!(d.dict.size <= LZ_DICT_SIZE - d.dict.lookahead_size, "OBL:fastcap.history_plus_lookahead_fit_the_window [C01 C10]");
+        kani::cover!(size0 == LZ_DICT_SIZE && d.params.window_bits_max == 15, "COV:fastcap.full_history_full_window");
+    }
+
+    /// compress_normal's input copy at the window end with no usable history (the byte-at-a-time path: stream start and
+    /// right after a Full flush): bytes land at their stream position modulo the window and in the mirror, and the first
+    /// token is decided on THOSE bytes
+    #[kani::proof]
+    #[kani::unwind(8)]
+    #[kani::stub(DictOxide::find_match, model_find_match)]
+    #[kani::stub(record_match, model_record_match)]
+    #[kani::stub(record_literal, model_record_literal_logged)]
+    #[kani::stub(flush_block, model_flush_block_pending)]
+    fn k_normal_window_wrap_without_history() {
+        let mut d = any_compressor!();
+        concrete_window!(d.dict);
+        let flags = d.params.flags;
+        kani::assume(flags & TDEFL_FORCE_ALL_RAW_BLOCKS == 0);
+        NS_FLAGS.store(flags, RLX);
+        NS_RECORDED.store(0, RLX); NS_TOKENS.store(0, RLX); NS_LAST_LIT.store(usize::MAX, RLX);
+        NS_FM_POS[0].store(usize::MAX, RLX); NS_FM_POS[1].store(usize::MAX, RLX);
+        NS_CAP.store(1usize << core::cmp::max(d.params.window_bits_max, 8), RLX);
+        let pos0: usize = 2 * LZ_DICT_SIZE - 1; // window index 32767: the next byte wraps to index 0
+        d.dict.lookahead_size = 0;
+        d.dict.lookahead_pos = pos0;
+        d.dict.size = 0;                         // history was just cut (Full flush)
+        // stale bytes from 32 KiB earlier
+        d.dict.b.dict[0] = 0xEE; d.dict.b.dict[1] = 0xEE; d.dict.b.dict[LZ_DICT_SIZE - 1] = 0xEE;
+        d.params.saved_match_len = 0;
+        NS_SAVED_VALID.store(0, RLX);
+        NS_BASE.store(pos0, RLX);
+        NS_SIZE_AT_BASE.store(0, RLX);
+        d.params.flush = TDEFLFlush::Sync;
+        d.params.src_pos = 0;
+        d.lz.code_position = LZ_CODE_BUF_SIZE - 7;
+        let inb: [u8; 3] = kani::any();
+        kani::assume(inb[0] != 0xEE && inb[1] != 0xEE && inb[2] != 0xEE);
+        let mut outb = [0u8; 8];
+        {
+            let mut cb = CallbackOxide::new_callback_buf(&inb[..], &mut outb[..]);
+            let _ = compress_normal(&mut d, &mut cb);
+        }
+        assert!(d.dict.b.dict[LZ_DICT_SIZE - 1] == inb[0] && d.dict.b.dict[0] == inb[1] && d.dict.b.dict[1] == inb[2], "OBL:normalwrap.input_lands_at_its_stream_position_modulo_the_window [C01 C02 C12]");
+        assert!(d.dict.b.dict[LZ_DICT_SIZE] == inb[1] && d.dict.b.dict[LZ_DICT_SIZE + 1] == inb[2], "OBL:normalwrap.window_start_is_mirrored_behind_the_window_end [C01 C12]");
+        if NS_LAST_LIT.load(RLX) != usize::MAX && NS_TOKENS.load(RLX) == 1 {
+            assert!(NS_LAST_LIT.load(RLX) == inb[0] as usize, "OBL:normalwrap.first_literal_is_the_first_new_byte [C01 C12]");
+        }
+        kani::cover!(NS_TOKENS.load(RLX) == 1, "COV:normalwrap.one_token");
     }
 
     //@PLAYBACK@
